@@ -41,6 +41,7 @@ func rt_36(c *core.Ctx, p *core.Prog) {
 		}
 		// id sinks: Append*(intValue, …) on a builder held in a field of the receiver
 		var sinks []ssa.Value
+		sinkOwner := map[string]map[ssa.Value]bool{} // pdata container type -> ids handed to the sub-builder that writes it
 		core.EachInstr(fn, func(i ssa.Instruction) {
 			ci, ok := i.(ssa.CallInstruction)
 			if !ok || isAccumulate(ci) {
@@ -59,6 +60,15 @@ func rt_36(c *core.Ctx, p *core.Prog) {
 				return
 			}
 			sinks = append(sinks, args[0])
+			// the entity the sink writes: the pdata containers among its other arguments (b.rb.Append(resID, resource, …))
+			for _, a := range args[1:] {
+				if n := core.NamedOf(a.Type()); n != nil && n.Obj().Pkg() != nil && strings.HasPrefix(n.Obj().Pkg().Path(), core.PdataPath) {
+					if sinkOwner[n.Obj().Name()] == nil {
+						sinkOwner[n.Obj().Name()] = map[ssa.Value]bool{}
+					}
+					sinkOwner[n.Obj().Name()][args[0]] = true
+				}
+			}
 		})
 		if len(sinks) == 0 {
 			continue
@@ -103,6 +113,49 @@ func rt_36(c *core.Ctx, p *core.Prog) {
 				for w := range written {
 					if core.SameValue(w, id) {
 						ok2 = true
+					}
+				}
+			}
+			// the attributes of a resource / scope go under the id handed to the resource / scope sub-builder — not
+			// under the id of the other one (both are in scope, of one type, and equal on every one-scope-per-resource input)
+			if ok2 {
+				owner := ""
+				core.BackSlice(args[1], func(v ssa.Value) bool {
+					if cl, ok := v.(*ssa.Call); ok && owner == "" {
+						if f := pdataCallee(cl); f != nil && f.Name() == "Attributes" && core.RecvNamed(f) != nil {
+							owner = core.RecvNamed(f).Obj().Name()
+							return false
+						}
+					}
+					return owner == ""
+				})
+				if ids := sinkOwner[owner]; owner != "" && len(ids) > 0 {
+					own := map[ssa.Value]bool{}
+					var exp2 func(v ssa.Value, d int)
+					exp2 = func(v ssa.Value, d int) {
+						v = core.StripConv(core.Canon(core.StripConv(v)))
+						if own[v] || d > 6 {
+							return
+						}
+						own[v] = true
+						if ph, ok := v.(*ssa.Phi); ok {
+							for _, e := range ph.Edges {
+								exp2(e, d+1)
+							}
+						}
+					}
+					for sv := range ids {
+						exp2(sv, 0)
+					}
+					match := own[id]
+					for w := range own {
+						if core.SameValue(w, id) {
+							match = true
+						}
+					}
+					if !match {
+						c.Viol(key, p.Pos(ci.Pos()), core.FuncName(fn), fmt.Sprintf("the attributes of a %s are accumulated under %s, which this function writes as the id of another entity, not as the id of the %s: whenever the two numbers differ (a resource with two scopes) the decoder attaches them to the wrong %s or to none", owner, describeID(id), owner, owner))
+						return
 					}
 				}
 			}
